@@ -40,7 +40,7 @@ RULE = ('cases = histories of 1-10 edits (add_fp / add_directory / add_hard_link
         'of the whole history.')
 ASSUMPTIONS = [
     'vf/legal.py encodes exactly the rules listed in the C13 statement; points the statement is silent on '
-    '(empty version, "+1" spellings, RR names longer than one NM field, file in a level-8 directory) accept both a clean refusal and a clean acceptance',
+    '(empty version, RR names longer than one NM field, file in a level-8 directory) accept both a clean refusal and a clean acceptance',
     'every generated edit touches one namespace only (ISO+RR count as one call), so a refusal cannot leave another '
     'namespace half-edited (that is C14); the write after a refusal is measured, not judged',
     'on a Rock Ridge image a directory record must hold at least the 28-byte SUSP CE entry besides the identifier, so '
@@ -693,7 +693,7 @@ seed_txt = st.text(alphabet=D, min_size=1, max_size=6)
 odd_st = st.one_of(st.none(), st.none(), st.sampled_from(['a', 'z', '-', ' ', '+', '~', 'é', 'Ж', '日', '😀', '.', ';', '\n', '\r', '\t', '\x00', '\x7f']))
 mode_st = st.sampled_from(['d', 'd', 'd', 'lower', 'utf8'])
 
-VERSIONS = [None, None, '1', '1', '', '0', '2', '32767', '32768', '99999', 'B', '1A', '+1', ' 1', '00001', '1;1', '-1']
+VERSIONS = [None, None, '1', '1', '', '0', '2', '32767', '32768', '99999', 'B', '1A', '+1', ' 1', '00001', '1;1', '-1', '1_0', '+32767', '1 ']
 FILE_TOTALS = {1: [1, 2, 5, 8, 9, 12, 13, 14],
                2: [1, 12, 30, 31, 32, 33, 100, 207, 208, 219, 220, 221, 222, 223, 230, 254, 255, 256, 260, 300],
                4: [1, 12, 30, 31, 32, 207, 208, 219, 220, 221, 222, 223, 230, 254, 255, 256, 260, 300]}
